@@ -38,6 +38,34 @@ type Value struct {
 	M    []KV
 	Raw  string
 	Sp   Spelling // string spelling, or for VInt: SpNumStr = quoted decimal
+	Num  NumForm  // VInt: which of the equivalent decimal spellings is written
+}
+
+// NumForm: the spellings of one decimal number the language reads alike.
+type NumForm int
+
+const (
+	NumPlain NumForm = iota // 40056
+	NumZeros                // 040056 (leading zeros do not make it octal)
+	NumPoint                // 40056.0
+	NumExp                  // 40056e0
+	NumExpUp                // 4005.6E1 (not for numbers ending in 0.. - see spellInt)
+	nNumForms
+)
+
+var numFormNames = [...]string{"plain", "leading-zeros", "point-zero", "exponent-zero", "shifted-exponent"}
+
+func (f NumForm) String() string { return numFormNames[f] }
+
+// NumForms lists every form.
+func NumForms() []NumForm { return []NumForm{NumPlain, NumZeros, NumPoint, NumExp, NumExpUp} }
+
+func IntForm(i int64, f NumForm, quoted bool) Value {
+	v := Value{Kind: VInt, I: i, Num: f}
+	if quoted {
+		v.Sp = SpNumStr
+	}
+	return v
 }
 
 func Str(s string) Value                { return Value{Kind: VStr, S: s} }
